@@ -859,4 +859,47 @@ theorem interp2d_clamped (x xf : List ℚ) (f : List (List ℚ)) (hne : xf ≠ [
   exact mapM_forall₂ _ _ x (fun q _ => interp2dRow_clamped xf f hne hg hf q)
 
 
+/-! ## which inputs raise -/
+
+theorem rollAv_raises (values : List ℚ) (steps : Nat) (mode : Mode) :
+    (rollAv values steps mode = .error .IndexError ↔ values = []) ∧
+    (rollAv values steps mode = .error .ValueError ↔ values ≠ [] ∧ steps = 0) := by
+  by_cases hne : values = []
+  · subst hne
+    simp [rollAv]
+  · have h0 : values.head? = some (values.head hne) := List.head?_eq_some_head hne
+    have hl : values.getLast? = some (values.getLast hne) := List.getLast?_eq_some_getLast hne
+    by_cases hs : steps = 0
+    · subst hs
+      unfold rollAv
+      rw [h0, hl]
+      simp [hne]
+    · rw [rollAv_spec values hne steps (by omega) mode]
+      simp [hne, hs]
+
+theorem stepErr_raises (values : List ℚ) (p : Nat) (d : Dir) :
+    (stepErr values p d = .error .IndexError ↔ values = []) ∧
+    (values ≠ [] → ∃ r, stepErr values p d = .ok r ∧ r.length = values.length) := by
+  by_cases hne : values = []
+  · subst hne
+    simp [stepErr]
+  · obtain ⟨M, _, _, hd, hu⟩ := stepErr_dir values hne p
+    cases d with
+    | none => rw [stepErr_none values hne p]; simp [hne]
+    | down => rw [hd]; simp [hne]
+    | up => rw [hu]; simp [hne]
+
+theorem interp2d_raises_empty_nodes (x : List ℚ) (f : List (List ℚ)) :
+    interp2d x [] f = .error .ValueError := by
+  simp [interp2d]
+
+theorem stepLevels_raises (values : List ℚ) :
+    (stepLevels values none = .error .IndexError ↔ values = []) := by
+  by_cases hne : values = []
+  · subst hne
+    simp [stepLevels, stepErr]
+  · obtain ⟨k, _, _, _, h⟩ := stepLevels_none values hne
+    rw [h]; simp [hne]
+
+
 end EqsigVerif.Lemmas.Fns
